@@ -108,6 +108,10 @@ def run_step(step, heap):
             out += len(od) + int(x.parity)
         _ = (x.shape, x.size, x.ndim, x.duals, x.charges, x.sizes, x.dtype, x.backend,
              x.num_blocks, x.sectors, x.symmetry, x.charge)
+        for sec in list(x.blocks)[:3]:
+            out += int(bool(x.is_valid_sector(sec))) + len(x.get_block_shape(sec))
+        if x.size <= 4096 and x.ndim <= 5:
+            out += sum(1 for _ in x.gen_valid_sectors())
         return out
     if op == "checks":
         x.check()
